@@ -145,6 +145,7 @@ type cliRun struct {
 	gated       atomic.Bool
 	cutMode     bool
 	cutEvs      []cutEvC
+	asyncOps    sync.WaitGroup // caller actions started while a loop was parked
 }
 
 const htsNone = ^uint32(0)
@@ -1060,15 +1061,28 @@ func (r *cliRun) step(st *cStep) {
 			r.emit(sEvent{"k": "note", "what": "ungate"})
 			r.gateRelease <- struct{}{}
 		}
+		r.asyncOps.Wait()
 		r.quiesce()
 	case "cancel":
 		r.reqMu.Lock()
 		rq := r.reqs[st.Req]
 		r.reqMu.Unlock()
 		if rq != nil {
-			err := r.conn.Cancel(rq.ctx)
-			rq.canceled = err == nil
-			r.emit(sEvent{"k": "cancel", "req": st.Req, "ok": err == nil})
+			do := func() {
+				err := r.conn.Cancel(rq.ctx)
+				r.reqMu.Lock()
+				rq.canceled = err == nil
+				r.reqMu.Unlock()
+				r.emit(sEvent{"k": "cancel", "req": st.Req, "ok": err == nil})
+			}
+			if r.gated.Load() {
+				// the loop that is parked in a gate may hold the request: Cancel then waits for it, as it should, and
+				// the goroutine that will open the gate must not be the one that waits
+				r.asyncOps.Add(1)
+				go func() { defer r.asyncOps.Done(); do() }()
+			} else {
+				do()
+			}
 		}
 		r.quiesce()
 	case "srvclose":
@@ -1093,6 +1107,7 @@ func (r *cliRun) finishRun() {
 	if r.gated.Load() {
 		r.gateRelease <- struct{}{}
 	}
+	r.asyncOps.Wait()
 	if !r.timeoutHit && r.handshakeErr == "" {
 		r.quiesce()
 	}
